@@ -279,6 +279,14 @@ pub fn to_hex(value: f64) -> String {
         value if value.is_zero() => format!("{sign_fmt}0x0.0p+0"),
         value if value.is_infinite() => format!("{sign_fmt}inf"),
         value if value.is_nan() => "nan".to_owned(),
+        value if value.is_subnormal() => {
+            // no implicit leading bit; the exponent is fixed, as in float.hex()
+            format!(
+                "{}0x0.{:013x}p-1022",
+                sign_fmt,
+                value.to_bits() & 0xf_ffff_ffff_ffff
+            )
+        }
         _ => {
             const BITS: i16 = 52;
             const FRACT_MASK: u64 = 0xf_ffff_ffff_ffff;
